@@ -1255,13 +1255,14 @@ def rule_lookup_before_work(chk, ev, rid):
                 fs = [m for m, lab in cfg.succ[n.id] if lab == lab_out]
                 if fs and stn in cfg.reachable(fs[0]):
                     gtests.append((n.id, fs[0], lab_out))
-    if len(gtests) != 1:
-        raise AnalysisError(f"Context.evaluate: expected one bypass guard around the lookup, found {len(gtests)}")
-    gt, bypass, bypass_label = gtests[0]
+    if not gtests:
+        raise AnalysisError(f"Context.evaluate: expected a bypass guard around the lookup, found {len(gtests)}")
+    # an if/elif chain yields one guard per reason: every guard's other edge is a bypass edge
+    bypass_edges = [(g_[0], g_[2]) for g_ in gtests]
     work = [ev.node(c) for c in ev.rec_calls + ev.action_calls]
     chk.floor(rid, len(work), 2, "work sites (recursion, action)")
     for wn in work:
-        ok = wn not in cfg.reachable(cfg.entry, avoid=[gn], avoid_edges=[(gt, bypass_label)])
+        ok = wn not in cfg.reachable(cfg.entry, avoid=[gn], avoid_edges=bypass_edges)
         chk.ob(rid, C, ok, f"`{U(cfg.nodes[wn].ast)[:50]}` is reached only after the lookup (or via the bypass edge)",
                cfg.nodes[wn].ast, ev.mod, key="lookup-dominates:" + U(cfg.nodes[wn].ast)[:30])
     # hit branch: the test on the looked-up value
